@@ -287,6 +287,7 @@ func c10Replay(e *core.Env, data json.RawMessage) (bool, string) {
 func init() {
 	core.Register(&core.Check{
 		ID: "C10", Level: "model_checking", Run: c10Run, Replay: c10Replay,
+		Added:       "windows of three centuries to two millennia",
 		QuickBudget: 80 * time.Second, ThoroughBudget: 14 * time.Minute,
 		Rule: "transactions with 1-2 bookings over account types {A,L,Equity,Income,Expenses}^2 x 7 amounts x 6 intervals (once/yearly through the library entry) x every window start<=end over the date alphabet and a day run, window independent of the transaction date; " +
 			"each case is expanded by transaction.Create; non-trivial = window longer than one day",
